@@ -633,6 +633,11 @@ class Evaluator(object):
                 self._ret_env = env         # the environment in force at the (last evaluated) return of the outermost function
             return Outcome(None, [([], v)])
         if isinstance(st, ast.Raise):
+            if not self._path and not getattr(self, '_try_depth', 0):
+                # no symbolic condition is open: with the (constant) inputs of this evaluation the statement IS reached
+                if not hasattr(self, 'raised'):
+                    self.raised = []
+                self.raised.append((self._stack[-1].qualname if self._stack else '<module>', st))
             return Outcome(None, [])
         if isinstance(st, ast.Pass):
             return Outcome(env)
@@ -663,7 +668,11 @@ class Evaluator(object):
             # handler is what runs
             n_diag = len(self.diagnostics)
             env_before = _copy_env(env)
-            out = self.exec_block(st.body, env, func)
+            self._try_depth = getattr(self, '_try_depth', 0) + 1
+            try:
+                out = self.exec_block(st.body, env, func)
+            finally:
+                self._try_depth -= 1
             missing = [d_ for d_ in self.diagnostics[n_diag:] if d_[0] == 'attr']
             if missing:
                 for h in st.handlers:
@@ -1543,6 +1552,10 @@ class Evaluator(object):
             return alg.define(res)
         if mod == 'numpy' and short in ('round', 'around', 'round_') and a and isinstance(a[0], (Rat, Mat)):
             return self._round_call(a, dict(('ndigits' if k == 'decimals' else k, v) for k, v in kwargs.items()), node)
+        if mod in ('math', 'numpy') and num and short == 'copysign' and len(a) == 2:
+            # magnitude of the first argument with the sign of the second (the sign of a zero is not modelled)
+            mag_ = alg.fabs(a[0])
+            return self.ite(alg.opaque('lt', (a[1], C(0))), -mag_, mag_)
         if mod in ('math', 'numpy') and num and short in ('atan2', 'arctan2') and len(a) == 2:
             return alg.atan2(a[0], a[1])
         if mod in ('math', 'numpy') and num and short in ('pow', 'power') and len(a) == 2:
@@ -2258,13 +2271,23 @@ def input_typed(m):
 
 MATH_CALLS = []     # (function, name, call node, argument form, result form) of sqrt / acos / asin calls met by any evaluator
 
+def _fold1(x, f, name):
+    """a rounding function of one argument: folded exactly on a rational constant, an opaque generator otherwise"""
+    fr = x.as_fraction() if isinstance(x, Rat) else None
+    if fr is not None:
+        return C(f(fr))
+    return alg.opaque(name, (x,))
+
+
 MATH1 = {
     'sin': alg.sin, 'cos': alg.cos, 'tan': alg.tan, 'sinh': alg.sinh, 'cosh': alg.cosh, 'tanh': alg.tanh,
     'atan': alg.atan, 'arctan': alg.atan, 'asin': alg.asin, 'arcsin': alg.asin, 'acos': alg.acos, 'arccos': alg.acos,
     'sqrt': alg.sqrt, 'log': alg.log, 'exp': alg.exp, 'radians': alg.radians, 'deg2rad': alg.radians,
     'degrees': alg.degrees, 'rad2deg': alg.degrees, 'atanh': alg.atanh, 'arctanh': alg.atanh, 'asinh': alg.asinh,
     'arcsinh': alg.asinh, 'fabs': alg.fabs, 'abs': alg.fabs, 'absolute': alg.fabs,
-    'floor': lambda x: alg.opaque('floor', (x,)), 'ceil': lambda x: alg.opaque('ceil', (x,)),
+    'floor': lambda x: _fold1(x, lambda f_: Fraction(f_.numerator // f_.denominator), 'floor'),
+    'ceil': lambda x: _fold1(x, lambda f_: Fraction(-((-f_.numerator) // f_.denominator)), 'ceil'),
+    'trunc': lambda x: _fold1(x, lambda f_: Fraction(int(f_)), 'int'),
 }
 
 
